@@ -27,7 +27,11 @@ func TestMain(m *testing.M) { kit.Main(m, "C10") }
 // receiver stopped reading while bulk data is relayed to it: the relay's
 // writer is stuck in a write and its output channel is full).
 //
-// Event: bad-preface (24 octets that are not the connection preface) | client-close
+// Event: bad-preface (24 octets that are not the connection preface) | closing-first
+// (state handshake: the closing channel is already closed when Config.Proxy is called;
+// the client then sends a correct preface) | server-close-slow-client (state mid: the
+// client's receive path stalls while the relay's writer delivers a DATA frame to it, the
+// server closes meanwhile, then the client's path recovers) | client-close
 // (in state handshake: after 10 of the 24 preface octets) | server-close (TLS close) | server-reset (TCP RST) |
 // client-write-fail (writes toward the client start failing) |
 // client-ack-write-fail (the client's receive path stalls and then dies exactly
@@ -50,7 +54,7 @@ var collect = os.Getenv("C10_COLLECT") != ""
 
 var (
 	states   = []string{"handshake", "idle", "mid", "blocked-c2s", "blocked-s2c", "backedup-c2s", "backedup-s2c"}
-	events   = []string{"bad-preface", "client-close", "server-close", "server-reset", "client-write-fail", "client-ack-write-fail", "client-proto-error", "server-proto-error", "closing"}
+	events   = []string{"bad-preface", "closing-first", "server-close-slow-client", "client-close", "server-close", "server-reset", "client-write-fail", "client-ack-write-fail", "client-proto-error", "server-proto-error", "closing"}
 	variants = []string{"continuation-without-headers", "bad-padding", "settings-bad-length"}
 
 	h2RE = regexp.MustCompile(`github\.com/google/martian/v3/h2\.`)
@@ -60,7 +64,10 @@ var (
 // malformed frame from the side whose frames the relay has stopped reading
 // (its reader is parked on the full output channel) never reaches it.
 func valid(c Case) bool {
-	if (c.State == "handshake") != (c.Event == "bad-preface" || (c.State == "handshake" && c.Event == "client-close")) {
+	if c.Event == "server-close-slow-client" && c.State != "mid" {
+		return false
+	}
+	if (c.State == "handshake") != (c.Event == "bad-preface" || c.Event == "closing-first" || (c.State == "handshake" && c.Event == "client-close")) {
 		return false // before the preface only the client can end the session, and only then can the preface be wrong
 	}
 	if c.Event == "client-ack-write-fail" && c.State != "mid" && c.State != "blocked-s2c" {
@@ -215,6 +222,7 @@ func runOnce(c Case, bound time.Duration) (v kit.Verdict, slow bool) {
 	if c.State == "backedup-c2s" {
 		o.ServerRcvBuf = 8 << 10
 	}
+	o.PreClosed = c.Event == "closing-first"
 	s, err := h2kit.Open(o)
 	if err != nil {
 		return kit.Failf("C10/setup/"+c.State+"/relay-did-not-connect", "%v", err), true
@@ -232,6 +240,20 @@ func runOnce(c Case, bound time.Duration) (v kit.Verdict, slow bool) {
 	// the terminating event
 	cl, sv := s.Client, s.Server
 	switch c.Event {
+	case "closing-first":
+		// the channel was closed before Proxy was called; the session itself starts normally
+		cl.WritePreface()
+		cl.WriteSettings()
+		sv.WriteSettings()
+	case "server-close-slow-client":
+		// The relay's server-to-client writer is inside the write of a DATA frame that
+		// the client is slow to take; its reader is free and sees the server go away.
+		s.Duplex.StallRelayWrites()
+		sv.WriteData(1, kit.Bytes(5, 1000), -1, false)
+		kit.Eventually(bound, func() bool { return s.Duplex.StalledWrites() >= 1 })
+		s.ServerTLS().Close()
+		time.Sleep(100 * time.Millisecond) // sets the scene only: the reader has seen the end by now
+		s.Duplex.ResumeRelayWrites()
 	case "bad-preface":
 		s.Duplex.HarnessSide().Write([]byte("GET / HTTP/1.1\r\nHost: x\r\n\r\n"))
 	case "client-close":
@@ -274,7 +296,7 @@ func runOnce(c Case, bound time.Duration) (v kit.Verdict, slow bool) {
 		switch c.Event {
 		case "client-close", "client-write-fail", "client-ack-write-fail", "client-proto-error":
 			go keepSending(sv, c)
-		case "server-close", "server-reset", "server-proto-error":
+		case "server-close", "server-reset", "server-proto-error", "server-close-slow-client":
 			go keepSending(cl, c)
 		default:
 			go keepSending(sv, c)
